@@ -485,3 +485,4 @@ def check(run, replay=None):
 
 # workloads added in seeding rounds 7-10 (DESIGN.md sections 13.9-13.12)
 LEVEL_TEXT = LEVEL_TEXT + ' Later additions: cells with one long axis and limits that put indices beyond 127.'
+LEVEL_TEXT = LEVEL_TEXT + ' Round 11: transformer.addcellpeaks with the centring changed on one transformer object.'
